@@ -42,14 +42,17 @@ def f_check(plan, dq=150, dt=900):
 
 A = ["harness/engine_a.c"] + COMMON
 H = ["harness/engine_h.c"] + COMMON
+# engines whose subject is the instance life cycle link only what the project itself links, so that the dlopen-ed back-end
+# libraries (null, rs_vand, isa-l) really are unmapped when their last reference is dropped
+LIFE_LINK = ["liberasurecode.so.1", "libXorcode.so.1"]
 T_SRCS = ["harness/engine_t.c", "harness/vsched.c", "harness/vh.c", "ref/ref.c"]
 RULE_H = ("explicit-state search over abstract registry states (sequence of live configurations in registry order, <= 4 slots, counter preset or not): every state is "
-          "built by its canonical history in a child forked from a pristine process and every operation of the alphabet (create x5, failed create x3, destroy slot, use slot, "
-          "7 error exits per slot, counter preset) is applied to it as real API calls; invariants of the set model are checked after each call, self-loops must leave the "
+          "built by its canonical history in a child forked from a pristine process and every operation of the alphabet (create x6, failed create x5, destroy slot, use slot, "
+          "14 error exits per slot, counter preset) is applied to it as real API calls; invariants of the set model are checked after each call, self-loops must leave the "
           "concrete observation (registry walk, ledger, table pointer) identical, and a state reached by an operation must look exactly like the same state built canonically; "
           "plus an unmerged enumeration of all operation sequences over a 10-letter alphabet up to the stated depth; states = transitions explored (one per case), "
           "non-trivial = state-changing transition or an operation on a non-empty registry")
-ASSUME_H = ["<= 4 live instances; configurations rs_vand (2,1) (3,2), flat_xor_hd (3,3,3), isa_l_rs_vand (2,1) via the reference plug-in, null (2,1)",
+ASSUME_H = ["<= 4 live instances; configurations rs_vand (2,1) (3,2), flat_xor_hd (3,3,3) (5,5,3), isa_l_rs_vand (2,1) via the reference plug-in, null (2,1); failing creates: unsupported flat-XOR shape, missing Jerasure library, k+m > 32, and init failures inside the null and isa-l back ends (w = 4)",
             "descriptors are opaque tokens: states are merged up to descriptor renaming (the counter preset is part of the state); the unmerged sequence enumeration cross-checks this",
             "allocation failure is not injected"]
 C14_SITES = r"descriptor-not-unique|registry-differs-from-model|dead-descriptor-accepted|live-instance-unusable|history-dependent-output|bad-create-succeeded|create-failed|destroy-failed|zero-descriptor|failed-create-left-something|same-state-different-observation|self-loop-changed-state|tables-not-released|registry-not-empty|crash|signal-|asan-|hang"
@@ -77,19 +80,19 @@ CHECKS = {
             "assumptions": ["NULL *elements* inside a fragment array and out-of-range indexes inside fragments_needed's lists are not in the alphabet (the statement names neither)",
                             "a fragment_len >= 80 that is smaller than the real fragments is not in the alphabet (recorded as an out-of-scope observation in DESIGN.md 9)",
                             "allocation failure is not injected", "Jerasure, SHSS and libphazr are not installed: their ids are exercised only up to the 'backend not available' refusal"]},
-    "C14": {"runs": [{"name": "states", "plan": "states", "srcs": H, "san": "asan", "opts": {"quick": {"slots": 4}, "thorough": {"slots": 4}}, "only_sites": C14_SITES},
-                     {"name": "seq", "plan": "seq", "srcs": H, "san": "asan", "opts": {"quick": {"depth": 5}, "thorough": {"depth": 7}}, "only_sites": C14_SITES},
-                     {"name": "wrap", "plan": "wrap", "srcs": H, "san": "asan", "opts": {"quick": {"depth": 9}, "thorough": {"depth": 11}}, "only_sites": C14_SITES}],
+    "C14": {"runs": [{"name": "states", "plan": "states", "srcs": H, "san": "asan", "link": LIFE_LINK, "weight": 3, "opts": {"quick": {"slots": 3, "pin_plugins": 0}, "thorough": {"slots": 4, "pin_plugins": 0}}, "only_sites": C14_SITES},
+                     {"name": "seq", "plan": "seq", "srcs": H, "san": "asan", "link": LIFE_LINK, "opts": {"quick": {"depth": 5, "pin_plugins": 0}, "thorough": {"depth": 7, "pin_plugins": 0}}, "only_sites": C14_SITES},
+                     {"name": "wrap", "plan": "wrap", "srcs": H, "san": "asan", "link": LIFE_LINK, "opts": {"quick": {"depth": 9, "pin_plugins": 0}, "thorough": {"depth": 11, "pin_plugins": 0}}, "only_sites": C14_SITES}],
             "level": "model_checking", "deadline": {"quick": 150, "thorough": 1500},
             "rule": RULE_H + "; plus (wrap) every sequence over {create flat_xor_hd, create null, destroy slot 0..3, counter := INT_MAX-1, counter := INT_MAX} up to the stated depth, unmerged, "
                     "so that the wrapped descriptor counter meets every arrangement of <= 4 live descriptors", "assumptions": ASSUME_H},
-    "C16": {"runs": [{"name": "states", "plan": "states", "srcs": H, "san": "asan", "opts": {"quick": {"slots": 3}, "thorough": {"slots": 4}}, "only_sites": C16_SITES},
-                     {"name": "seq", "plan": "seq", "srcs": H, "san": "asan", "opts": {"quick": {"depth": 4}, "thorough": {"depth": 6}}, "only_sites": C16_SITES},
+    "C16": {"runs": [{"name": "states", "plan": "states", "srcs": H, "san": "asan", "link": LIFE_LINK, "opts": {"quick": {"slots": 3, "pin_plugins": 0}, "thorough": {"slots": 4, "pin_plugins": 0}}, "only_sites": C16_SITES},
+                     {"name": "seq", "plan": "seq", "srcs": H, "san": "asan", "link": LIFE_LINK, "opts": {"quick": {"depth": 4, "pin_plugins": 0}, "thorough": {"depth": 6, "pin_plugins": 0}}, "only_sites": C16_SITES},
                      {"name": "c16s", "plan": "c16s", "srcs": S, "san": "asan"}],
             "level": "model_checking", "deadline": {"quick": 150, "thorough": 1500},
             "rule": RULE_H + "; plus a sweep over all 496 RS + 38 XOR + 2x496 ISA-L shapes: encode, decode (4 erasure sets, unaligned inputs), reconstruct every index, the cleanup calls, destroy - the ledger of library allocations must be back at its baseline",
             "assumptions": ASSUME_H + ["leak = the exact ledger of the library's own allocations (link-time --wrap) differs from its value before the operation; use-after-free / overflow = AddressSanitizer report"]},
-    "C17": {"runs": [{"name": "faults", "plan": "faults", "srcs": ["harness/engine_x.c"] + COMMON, "san": "asan"}],
+    "C17": {"runs": [{"name": "faults", "plan": "faults", "srcs": ["harness/engine_x.c"] + COMMON, "san": "asan", "case_timeout": 10}],
             "level": "fault_enumeration", "deadline": {"quick": 150, "thorough": 900},
             "rule": ("a tap on the backend operation table makes the n-th backend call (init, encode, decode, reconstruct, fragments_needed) of a scripted workload "
                      "(create, encode, decode with unaligned inputs, reconstruct data, fragments_needed, encode, decode two missing, reconstruct parity, destroy) report failure: "
@@ -117,7 +120,7 @@ CHECKS = {
                             "interleavings are explored at hooked points only; accesses between hooks are covered by the ThreadSanitizer monitor on the same schedules, not by further interleaving",
                             "sequentially consistent execution (one thread runs at a time); weak-memory effects only as far as TSan's happens-before model flags them"]},
     "C15": {"runs": [{"name": "c15", "plan": "c15", "srcs": S, "san": "asan", "weight": 10, "opts": {"quick": {"isa_n": 12}}},
-                     {"name": "states", "plan": "states", "srcs": H, "san": "asan", "opts": {"quick": {"slots": 3}, "thorough": {"slots": 4}}, "only_sites": r"history-dependent-output"},
+                     {"name": "states", "plan": "states", "srcs": H, "san": "asan", "link": LIFE_LINK, "opts": {"quick": {"slots": 3, "pin_plugins": 0}, "thorough": {"slots": 4, "pin_plugins": 0}}, "only_sites": r"history-dependent-output"},
                      {"name": "threads", "plan": "asan", "srcs": T_SRCS, "san": "asan", "hooks": True, "nosan": ("vsched.c",),
                       "opts": {"quick": {"bound": 1, "drivers": 2}, "thorough": {"bound": 2, "drivers": 5}}, "only_sites": r"result-differs-from-sequential"},
                      # thread independence of the data plane: state shared between calls (a static scratch buffer, a cached flag) is a conflicting access TSan reports
